@@ -667,8 +667,9 @@ Proof.
     destruct (_ && _); [reflexivity|]. destruct (pi_is_last pi1); [reflexivity|].
     destruct (check_permission m' OpenLookup (v_user v)); [apply IH|reflexivity].
   - reflexivity.
-  - subst l'. destruct (_ && _); [reflexivity|]. destruct (Nat.ltb slCountMax (S slc)); [reflexivity|].
+  - subst l'. destruct (_ && _); [reflexivity|].
     destruct (pi_is_last pi1 && slmode_eqb slm SlLstat); [reflexivity|].
+    destruct (Nat.ltb slCountMax (S slc)); [reflexivity|].
     destruct (pi_replace_part (v_os v) pi1 l) as [reset pi2]. apply IH.
   - reflexivity.
 Qed.
@@ -1197,8 +1198,8 @@ Section StepRefine.
       erewrite on_fd_closed by eassumption. cbn. split; auto; same_world.
     - erewrite on_fd_open by eassumption.
       unfold f_chmod. destruct (hd_name f) eqn:Enm; [congruence|]. rewrite Hnode, Hget.
-      destruct Hg as [Hadm Hos]. unfold set_mode_ok. rewrite Hadm, orb_true_r.
-      cbn [fst snd fproj_res set_meta node_meta]. split; [reflexivity|].
+      destruct Hg as [Hadm Hos]. unfold set_mode_ok, chmod_mode. rewrite Hadm, orb_true_r.
+      cbn [fst snd fproj_res set_meta node_meta negb andb]. split; [reflexivity|].
       destruct (perm_small Hp) as (P1 & P2 & _). destruct (perm_small Hperm) as (_ & _ & P3).
       unfold with_mode, meta_of at 1 2 3. cbn [m_mode m_uid m_gid]. rewrite P1, P2, P3. cbn [N.lor].
       unfold Rel. cbn [with_fs w_fs w_views w_handles].
@@ -1311,6 +1312,8 @@ Section StepRefine.
     unfold step_ok. unfold kf02 in Hkf. rewrite Eacc in Hkf.
     cbn [impl_call wstep]. unfold on_view. rewrite Hv.
     (* the implementation *)
+    remember (fpath name) as pth eqn:Ep.
+    destruct pth as [|p0 pth]; [symmetry in Ep; now apply fpath_nonempty in Ep|].
     unfold open_file. cbv zeta.
     destruct (Hres (if has (to_open_mode flag) OpenCreateExcl then SlLstat else SlEval)) as (He & Hc & Hlast).
     rewrite He, Hc, Hlast. cbn [is_file_exists is_not_exist negb andb orb]. rewrite Hget.
@@ -1335,7 +1338,7 @@ Section StepRefine.
       + apply Rel_upd_inode with (ino := ino) (ino' := set_bytes ino []); assumption.
       + cbn [with_inode st_inodes]. rewrite set_nth_length.
         unfold rel_fd, new_handle. cbn [hd_view hd_name hd_node hd_at hd_mode o_ino o_off o_acc o_app o_closed length Z.of_nat].
-        repeat split; auto. apply fpath_nonempty. now destruct (fbit flag FO_APPEND).
+        repeat split; auto; try discriminate. now destruct (fbit flag FO_APPEND).
     - cbn [fst snd st_inodes st_names st_fds fproj_res] in *. rewrite Hlen. split; [reflexivity|].
       unfold fd_get in Hkf. cbn [st_fds st_inodes] in Hkf.
       rewrite nth_error_app2, Nat.sub_diag in Hkf by lia. cbn [nth_error o_ino] in Hkf. rewrite Eino in Hkf.
@@ -1344,7 +1347,7 @@ Section StepRefine.
       apply (Rel_add_fd _ _ _ st).
       + apply Rel_touch; assumption.
       + unfold rel_fd, new_handle. cbn [hd_view hd_name hd_node hd_at hd_mode o_ino o_off o_acc o_app o_closed].
-        repeat split; auto. apply fpath_nonempty.
+        repeat split; auto; try discriminate.
         destruct (fbit flag FO_APPEND); [|reflexivity].
         cbn [andb] in Hkf. destruct (Nat.eqb_spec (length (i_bytes ino)) 0) as [H0|H0]; [|discriminate].
         rewrite H0. reflexivity.
